@@ -9,10 +9,13 @@ Theorem c16_inv_reachable : forall ops, linv (fst (lrun l_start ops)).
 Proof. exact linv_reachable. Qed.
 Print Assumptions c16_inv_reachable.
 
-Theorem c16_log_goes_somewhere : forall ops o, o = OLog \/ o = OWrite ->
+(* hi = the level is WARN or above; CfgW's logger takes only those. With no live configuration every level goes to the console:
+   nothing a former configuration decided (a level range, a binding) outlives it *)
+Theorem c16_log_goes_somewhere : forall ops hi,
   let s := fst (lrun l_start ops) in
-  snd (lstep s o) = match l_running s with Some c => ToConfig c | None => ToConsole end /\
-  (l_init s = false -> snd (lstep s o) = ToConsole).
+  snd (lstep s (OLog hi)) = match l_running s with Some c => if accepts c hi then ToConfig c else Filtered | None => ToConsole end /\
+  snd (lstep s OWrite) = match l_running s with Some c => ToConfig c | None => ToConsole end /\
+  (l_init s = false -> snd (lstep s (OLog hi)) = ToConsole /\ snd (lstep s OWrite) = ToConsole).
 Proof. exact log_goes_somewhere. Qed.
 Print Assumptions c16_log_goes_somewhere.
 
@@ -34,7 +37,7 @@ Print Assumptions c16_registration_guard.
 Theorem c16_destroy_then_refresh_routes : forall s c,
   let s1 := fst (lstep s ODestroy) in
   lstep s1 (ORefresh c) = ({| l_init := true; l_tag := Some c; l_handle := Some c; l_running := Some c |}, RefreshOk) /\
-  snd (lstep (fst (lstep s1 (ORefresh c))) OLog) = ToConfig c /\ snd (lstep (fst (lstep s1 (ORefresh c))) OWrite) = ToConfig c.
+  snd (lstep (fst (lstep s1 (ORefresh c))) (OLog true)) = ToConfig c /\ snd (lstep (fst (lstep s1 (ORefresh c))) OWrite) = ToConfig c.
 Proof. exact destroy_then_refresh_routes. Qed.
 Print Assumptions c16_destroy_then_refresh_routes.
 
@@ -45,6 +48,8 @@ Proof. exact failed_refresh_leaves_no_configuration. Qed.
 Print Assumptions c16_failed_refresh_leaves_no_configuration.
 
 Example c16_ex :
-  snd (lrun l_start [OWrite; ORefreshLate; OLog; ORegisterTag; ORefresh CfgB; ORefresh CfgA; OLog; OGetLogger; ODestroy; ODestroy; OWrite; ORefresh CfgA; OWrite]) =
-    [ToConsole; RefreshErr; ToConsole; Registered; RefreshOk; RefreshErr; ToConfig CfgB; Refused; Done; Done; ToConsole; RefreshOk; ToConfig CfgA].
+  snd (lrun l_start [OWrite; ORefreshLate; OLog false; ORegisterTag; ORefresh CfgB; ORefresh CfgA; OLog false; OGetLogger; ODestroy; ODestroy; OWrite; ORefresh CfgA; OWrite;
+                     ODestroy; ORefresh CfgW; OLog false; OLog true; OWrite; ODestroy; OLog false]) =
+    [ToConsole; RefreshErr; ToConsole; Registered; RefreshOk; RefreshErr; ToConfig CfgB; Refused; Done; Done; ToConsole; RefreshOk; ToConfig CfgA;
+     Done; RefreshOk; Filtered; ToConfig CfgW; ToConfig CfgW; Done; ToConsole].
 Proof. vm_compute. reflexivity. Qed.
